@@ -26,74 +26,48 @@ META = {
 }
 
 
+_CAND = "f'{form[:-len($1[0])]}{$1[1]}'"
+
+
 def r1_provenance(ctx, res):
-    f = ctx.repo.func('morphy', 'Morphy._morphstr')
-    loc = f.module.loc(f.node)
-    adds = [n for n in walk_no_nested(f.node) if isinstance(n, ast.Call) and isinstance(n.func, ast.Attribute)
-            and norm(n.func.value) == 'candidates' and n.func.attr in ('add', 'update')]
-    if len(adds) < 3:
-        raise AnalysisError('anchor vanished: candidate accumulation in Morphy._morphstr')
-    for a in adds:
-        arg = norm(a.args[0])
-        guards = []
-        for p in parents(a):
-            if isinstance(p, ast.If):
-                pol = any(a is x for b in p.body for x in ast.walk(b))
-                guards.append((norm(p.test), pol))
-            if p is f.node:
-                break
-        key = f'candidate:{arg}'
-        res.inst(key, f.module.loc(a), f'guards {guards}')
-        gt = [g for g, pol in guards if pol]
-        if arg == 'form':
-            ok = 'form in all_lemmas' in gt and 'initialized' in gt
-            msg = 'the query itself is added as a lemma without the `form in all_lemmas` test (initialized Morphy must return only lemmas it knows)'
-        elif arg.startswith('self._exceptions[pos].get(form'):
-            ok = 'initialized' in gt
-            msg = 'exception-map lemmas are added outside the initialized branch'
-        elif arg == 'candidate':
-            ok = 'not initialized or candidate in all_lemmas' in gt and any('form.endswith(suffix)' in g for g in gt)
-            msg = 'a rule output is added without `not initialized or candidate in all_lemmas`: an initialized Morphy returns strings that are ' \
-                  'not lemmas of the wordnet'
-        else:
-            ok = False
-            msg = f'`{arg}` is added to the candidates: not the query, an exception-map entry or a rule output'
-        if not ok:
-            res.find(key, f.module.loc(a), f'Morphy._morphstr: {msg} (guards: {gt})')
-    src = Frag(f.node)
-    key = 'lemma-inventory-per-pos'
-    res.inst(key, loc, 'all_lemmas = self._all_lemmas[pos] when initialized, empty otherwise')
-    if 'all_lemmas = self._all_lemmas[pos]' not in src or 'initialized = self._initialized' not in src:
-        res.find(key, loc, '_morphstr no longer filters against the lemma inventory of the requested part of speech')
-    c = ctx.repo.func('morphy', 'Morphy.__call__')
+    """what _morphstr puts into its result, under which conditions (effect summary: locals inlined, so `initialized`,
+    `all_lemmas`, `candidate`, `suffix`... may be named, introduced or removed freely)"""
+    from ..speccheck import view, expect
+    v = view(ctx, 'morphy', 'Morphy._morphstr')
+    inv = f'not self._initialized or {_CAND} in (self._all_lemmas[pos] if self._initialized else set())'
+    expect(res, 'candidates', v, [
+        ('new', '#1'),
+        ('call', '#1.add(form)', ('form in self._all_lemmas[pos]', 'self._initialized'), (), 'exact'),
+        ('call', '#1.update(self._exceptions[pos].get(form, set()))', ('self._initialized',), (), 'exact'),
+        ('call', f'#1.add({_CAND})', ('form.endswith($1[0])', 'len($1[0]) < len(form)', inv), ('for self._rules[pos]',), 'exact'),
+        ('return', '#1'),
+    ], 'an initialized Morphy returns the query if it is a lemma of the part of speech, every lemma of a word listing the query as an '
+       'additional form (unconditionally), and the rule outputs that are lemmas; an uninitialized one returns every rule output; a rule '
+       'applies only to a proper suffix (no full suppletion)')
+    key = 'candidates:nothing-else'
+    others = [r for r in v.rows if r[0] in ('call', 'store', 'aug') and r[1].startswith('#1') and r[1] not in
+              ('#1.add(form)', '#1.update(self._exceptions[pos].get(form, set()))', f'#1.add({_CAND})')]
+    res.inst(key, v.loc(), f'{len(others)} other writes to the result')
+    for r in others:
+        res.find(key, v.loc(r[4]), f'Morphy._morphstr also does `{r[1][:80]}` when {sorted(r[2])}: not the query, an exception-map entry or a rule output')
+    c = view(ctx, 'morphy', 'Morphy.__call__')
     key = 'uninitialized-adds-original'
-    s2 = Frag(c.node)
-    ifs = [n for n in walk_no_nested(c.node) if isinstance(n, ast.If) and norm(n.test) == 'not self._initialized']
-    res.inst(key, c.module.loc(c.node), 'result[pos] = {form} when not initialized')
-    if len(ifs) != 1 or [norm(x) for x in ifs[0].body] != ['result[pos] = {form}']:
-        res.find(key, c.module.loc(c.node), 'an uninitialized Morphy no longer always includes the original form')
+    hits = c.find('store', '#1[pos] = {form}', ('not self._initialized',))
+    res.inst(key, c.loc(), 'result[pos] = {form} when not initialized')
+    if not hits or any(h[2] != frozenset({'not self._initialized'}) for h in hits):
+        res.find(key, c.loc(), 'an uninitialized Morphy no longer always (and only then) includes the original form')
 
 
 def r2_no_full_suppletion(ctx, res):
-    f = ctx.repo.func('morphy', 'Morphy._morphstr')
-    key = 'detachment-guard'
-    ifs = [n for n in walk_no_nested(f.node) if isinstance(n, ast.If) and 'endswith' in norm(n.test)]
-    res.inst(key, f.module.loc(f.node), f'{[norm(i.test) for i in ifs]}')
-    ok = len(ifs) == 1 and sorted(norm(v) for v in ifs[0].test.values) == ['form.endswith(suffix)', 'len(suffix) < len(form)'] \
-        if ifs and isinstance(ifs[0].test, ast.BoolOp) and isinstance(ifs[0].test.op, ast.And) else False
-    if not ok:
-        res.find(key, f.module.loc(f.node), 'a rule is applied without `form.endswith(suffix) and len(suffix) < len(form)`: a suffix that is the whole '
-                                            'word would be detached (full suppletion)')
-    key = 'detachment-output'
-    outs = [n for n in walk_no_nested(f.node) if isinstance(n, ast.Assign) and norm(n.targets[0]) == 'candidate']
-    res.inst(key, f.module.loc(f.node), f'{[norm(o.value) for o in outs]}')
-    if len(outs) != 1 or norm(outs[0].value) != "f'{form[:-len(suffix)]}{repl}'":
-        res.find(key, f.module.loc(f.node), 'a rule output is no longer the form without the suffix plus the replacement')
+    from ..speccheck import view
+    v = view(ctx, 'morphy', 'Morphy._morphstr')
     key = 'rules-of-pos'
-    loops = [n for n in walk_no_nested(f.node) if isinstance(n, ast.For) and norm(n.iter) == 'self._rules[pos]']
-    res.inst(key, f.module.loc(f.node), 'for suffix, repl, _ in self._rules[pos]')
-    if len(loops) != 1 or norm(loops[0].target) != '(suffix, repl, _)':
-        res.find(key, f.module.loc(f.node), '_morphstr no longer iterates the (suffix, replacement) rules of the requested part of speech')
+    rule_effects = [r for r in v.rows if any(c.startswith('for ') for c in r[3])]
+    res.inst(key, v.loc(), f'{sorted({c for r in rule_effects for c in r[3]})}')
+    if not rule_effects or any(r[3] != ('for self._rules[pos]',) for r in rule_effects):
+        res.find(key, v.loc(), '_morphstr no longer iterates exactly the (suffix, replacement) rules of the requested part of speech')
+    key = 'detachment-guard'
+    res.inst(key, v.loc(), 'see C17-R1 `candidates` (guards form.endswith(suffix) and len(suffix) < len(form))')
 
 
 def r3_rule_table(ctx, res):
@@ -118,12 +92,6 @@ def r3_rule_table(ctx, res):
             res.inst(key, 'wn/morphy.py', f'flags {int(r[2])}')
             if len(r) != 3 or not isinstance(r[0], str) or not isinstance(r[1], str) or r[0] == '':
                 res.find(key, 'wn/morphy.py', f'malformed rule {r!r}')
-    init = ctx.repo.func('morphy', 'Morphy.__init__')
-    key = 'rules-filtered-to-WN'
-    s = Frag(init.node)
-    res.inst(key, init.module.loc(init.node), 'rule[2] & _System.WN')
-    if 'pos: [rule for rule in rules if rule[2] & _System.WN] for pos, rules in DETACHMENT_RULES.items()' not in s:
-        res.find(key, init.module.loc(init.node), 'Morphy no longer keeps exactly the rules flagged for the WN system')
     used = sum(1 for lst in rules.values() for r in lst if int(r[2]) & int(wn_flag))
     res.inst('rule-table:count', 'wn/morphy.py', f'{n} rules, {used} flagged WN')
     if used < 20:
@@ -131,45 +99,34 @@ def r3_rule_table(ctx, res):
 
 
 def r4_initialisation(ctx, res):
-    init = ctx.repo.func('morphy', 'Morphy.__init__')
-    s = Frag(init.node)
-    loc = init.module.loc(init.node)
-
-    def chk(key, ok, msg):
-        res.inst(key, loc, 'anchor')
-        if not ok:
-            res.find(key, loc, msg)
-    chk('init:words', 'for word in wordnet.words()' in s, 'the lemma inventory is no longer built from wordnet.words()')
-    chk('init:first-form-is-lemma', 'lemma, *others = word.forms()' in s, 'the first form of a word is no longer taken as its lemma')
-    chk('init:per-pos', 'pos = word.pos' in s and 'pos_exc = exceptions[pos]' in s and 'all_lemmas[pos].add(lemma)' in s,
-        'lemmas / exceptions are no longer recorded under the part of speech of their word')
-    loops = [n for n in walk_no_nested(init.node) if isinstance(n, ast.For) and norm(n.iter) == 'others']
-    ok = len(loops) == 1 and 'pos_exc[other].add(lemma)' in norm(loops[0]) and 'pos_exc[other] = {lemma}' in norm(loops[0])
-    chk('init:exception-map', ok, 'every additional form no longer maps to (all of) its lemmas in the exception map')
-    chk('init:flag', 'self._initialized = True' in s and 'self._initialized = False' in s and 'self._exceptions = exceptions' in s
-        and 'self._all_lemmas = all_lemmas' in s, 'the initialized flag / inventories are no longer stored')
-    chk('init:all-pos', 'pos: {} for pos in PARTS_OF_SPEECH' in s and 'pos: set() for pos in PARTS_OF_SPEECH' in s,
-        'inventories are no longer created for every part of speech (a word of an unlisted pos raises KeyError)')
+    from ..speccheck import view, expect
+    v = view(ctx, 'morphy', 'Morphy.__init__')
+    W = ('for wordnet.words()',)
+    expect(res, 'init', v, [
+        ('store', 'self._rules = {_1: [_3 for _3 in _2 if _3[2] & _System.WN] for _1, _2 in DETACHMENT_RULES.items()}'),
+        ('store', '#1[$1] = {}', (), ('for PARTS_OF_SPEECH',)),
+        ('store', '#2[$1] = set()', (), ('for PARTS_OF_SPEECH',)),
+        ('call', '#2[$1.pos].add($1.forms()[0])', ('wordnet',), W),
+        ('call', '#1[$1.pos].setdefault($2, set()).add($1.forms()[0])', ('wordnet',), W + ('for $1.forms()[1:]',)),
+        ('store', 'self._initialized = True', ('wordnet',)),
+        ('store', 'self._initialized = False', ('not wordnet',)),
+        ('store', 'self._exceptions = #1'),
+        ('store', 'self._all_lemmas = #2'),
+    ], 'Morphy(wordnet) keeps the rules flagged for the WN system, records the first form of every word as a lemma of its part of '
+       'speech and maps every additional form to (all of) its lemmas; inventories exist for every part of speech')
 
 
 def r5_dispatch(ctx, res):
-    c = ctx.repo.func('morphy', 'Morphy.__call__')
-    s = Frag(c.node)
-    loc = c.module.loc(c.node)
-
-    def chk(key, ok, msg):
-        res.inst(key, loc, 'anchor')
-        if not ok:
-            res.find(key, loc, msg)
-    ifs = [n for n in walk_no_nested(c.node) if isinstance(n, ast.If) and norm(n.test) == 'pos is None']
-    ok = len(ifs) == 1 and [norm(x) for x in ifs[0].body] == ['pos_list = list(DETACHMENT_RULES)'] and len(ifs[0].orelse) == 1 \
-        and isinstance(ifs[0].orelse[0], ast.If) and norm(ifs[0].orelse[0].test) == 'pos in DETACHMENT_RULES' \
-        and [norm(x) for x in ifs[0].orelse[0].body] == ['pos_list = [pos]'] and [norm(x) for x in ifs[0].orelse[0].orelse] == ['pos_list = []']
-    chk('dispatch', ok, '__call__ no longer tries every part of speech for pos=None, the given one if it has rules, and none otherwise')
-    chk('no-duplicate-original', 'no_pos_forms = result.get(None, set())' in s and 'candidates = self._morphstr(form, _pos) - no_pos_forms' in s,
-        '__call__ no longer removes the unfiltered original (listed under None) from the per-pos candidates')
-    chk('result-accumulation', 'result.setdefault(_pos, set()).update(candidates)' in s and 'return result' in s,
-        '__call__ no longer returns {pos: set of candidates} for the parts of speech with candidates')
+    from ..speccheck import view, expect
+    v = view(ctx, 'morphy', 'Morphy.__call__')
+    disp = 'for list(DETACHMENT_RULES) if pos is None else [pos] if pos in DETACHMENT_RULES else []'
+    cand = 'self._morphstr(form, $1) - #1.get(None, set())'
+    expect(res, 'dispatch', v, [
+        ('new', '#1'),
+        ('call', f'#1.setdefault($1, set()).update({cand})', (cand,), (disp,)),
+        ('return', '#1'),
+    ], '__call__ tries every part of speech for pos=None, the given one if it has rules and none otherwise, removes the unfiltered '
+       'original (listed under None) from the per-pos candidates and returns {pos: candidates} for the parts of speech with candidates')
     m = ctx.repo.mod('morphy')
     key = 'module-default'
     res.inst(key, m.relpath, 'morphy = Morphy()')
@@ -183,10 +140,10 @@ def r6_consumption(ctx, res):
 
 
 RULES = [
-    ('C17-R1', r1_provenance, 5),
-    ('C17-R2', r2_no_full_suppletion, 3),
+    ('C17-R1', r1_provenance, 3),
+    ('C17-R2', r2_no_full_suppletion, 2),
     ('C17-R3', r3_rule_table, 25),
-    ('C17-R4', r4_initialisation, 6),
-    ('C17-R5', r5_dispatch, 4),
+    ('C17-R4', r4_initialisation, 1),
+    ('C17-R5', r5_dispatch, 2),
     ('C17-R6', r6_consumption, 10),
 ]
